@@ -87,8 +87,94 @@ def _slug(errors: list[tuple[str, str]]) -> str:
     return re.sub(r"[^a-z]+", "-", msg.lower()).strip("-")[:40] or "error"
 
 
+def threaded_cache(ctx: RunCtx) -> None:
+    """Stratum 2 (one run in four): the cache object itself under thread-level interleaving.
+
+    A real WSGI worker serves requests on several threads, all of which go through ONE ``_CallStateCache``.  2-3
+    simulated threads run drawn get / put sequences over a few keys on a real cache with capacity 1-3 (so puts evict what
+    other threads are looking up), with pre-emption at every line of _state_token.py and around its lock.  A cache may
+    forget anything at any time - that is the miss path - so the oracle is only what the property needs: no operation
+    raises (a raising get() is a 500 where a cold worker serves the request), a hit returns an object that was put under
+    exactly that (call id, identity) key, and the capacity bound holds once the threads are done.
+    """
+    import vgi_rpc.http.server._state_token as st
+    from dst.sched import SimThreading
+    from vgi_rpc.rpc import AuthContext
+
+    ch = ctx.ch
+    sched = Scheduler(ch, ctx.log, trace_files={st.__file__}, preempt_budget=3, horizon=400, sync_preempts=2, sync_odds=4, wall_limit=60.0)
+    cap = 1 + ch.choose(3, "t.cap")
+    ttl = 100.0
+    nthreads = 2 + ch.choose(2, "t.threads")
+    keys = [bytes([k]) * 16 for k in range(1 + ch.choose(3, "t.keys"))]
+    auths = [None, AuthContext(domain="d", authenticated=True, principal="alice", claims={})]
+    plans = [[(ch.choose(2, f"t{i}.op{j}"), ch.choose(len(keys), f"t{i}.k{j}"), ch.choose(2, f"t{i}.a{j}"), ch.choose(3, f"t{i}.dt{j}"))
+              for j in range(2 + ch.choose(4, f"t{i}.n"))] for i in range(nthreads)]
+    saved = st.threading
+    st.threading = SimThreading(sched)  # type: ignore[assignment]
+    put_under: dict[int, tuple[bytes, str]] = {}
+    events: list[tuple] = []
+    try:
+        cache = st._CallStateCache(max_entries=cap, ttl=ttl)
+
+        def worker(i: int) -> None:
+            for j, (op, k, a, dt) in enumerate(plans[i]):
+                now = 1000.0 + [0.0, 50.0, 150.0][dt]  # some lookups see the entry expired
+                key, auth = keys[k], auths[a]
+                ident = st._CallStateCache._identity(auth)
+                try:
+                    if op == 0:
+                        obj = st._ResolvedCall(None, None, None, f"s{i}.{j}")  # type: ignore[arg-type]
+                        put_under[id(obj)] = (key, ident)
+                        events.append((ctx.log.add("put", i, j, k, a), "put", i, j, obj))
+                        cache.put(key, auth, obj, now)
+                    else:
+                        got = cache.get(key, auth, now)
+                        events.append((ctx.log.add("get", i, j, k, a, None if got is None else got.stream_id), "get", i, j, got, key, ident))
+                except Exception as exc:  # noqa: BLE001 - the finding
+                    events.append((ctx.log.add("raised", i, j, type(exc).__name__), "raised", i, j, f"{type(exc).__name__}: {exc}", op))
+
+        def root() -> None:
+            ts = [sched.spawn(worker, i, name=f"w{i}") for i in range(nthreads)]
+            for t in ts:
+                while t.state != "done":
+                    sched.block(("join", t.sid), 1.0, "join")
+
+        sched.run(root)
+        n_entries = len(cache._entries)
+    finally:
+        st.threading = saved  # type: ignore[assignment]
+    ctx.absorb_sched(sched)
+    ctx.case_key = ("threaded", cap, len(keys), tuple(tuple(p) for p in plans))
+    ctx.nontrivial = sched.preemptions > 0
+    ctx.sample = {"stratum": "threaded-cache", "capacity": cap, "keys": len(keys), "plans": [[("put" if o == 0 else "get", k, a, dt) for o, k, a, dt in p]
+                                                                                          for p in plans], "preemptions": sched.preemptions}
+    ch.probe("stratum:threaded-cache")
+    if sched.preemptions:
+        ch.fault("sched.preempt", sched.preemptions)
+    sched_txt = " ".join(sched.sched_trace[:40])
+    if sched.deadlocked:
+        ctx.violation("C14", "threaded", "deadlock", f"threads blocked forever on the cache lock: {sched.describe_blocked()}; schedule {sched_txt}")
+        return
+    for e in events:
+        if e[1] == "raised":
+            ctx.violation("C14", "threaded", f"{'put' if e[5] == 0 else 'get'}-raised:{e[4].split(':')[0]}",
+                          f"thread {e[2]} operation {e[3]} on the shared call-state cache (capacity {cap}) raised {e[4]}; over HTTP that is a "
+                          f"500 for a request a worker with an empty cache serves from the call token; plans {ctx.sample['plans']}; schedule {sched_txt}")
+            return
+        if e[1] == "get" and e[4] is not None and put_under.get(id(e[4])) != (e[5], e[6]):
+            ctx.violation("C14", "foreign-call-state", "threaded-hit", f"get({e[5]!r}, identity {e[6]!r}) returned an object that was put under "
+                          f"{put_under.get(id(e[4]))}; schedule {sched_txt}")
+            return
+    if n_entries > cap:
+        ctx.violation("C14", "threaded", "capacity", f"{n_entries} entries in a cache of capacity {cap} after all threads finished; schedule {sched_txt}")
+
+
 def run(ctx: RunCtx) -> None:
     ch = ctx.ch
+    if ch.choose(4, "stratum") == 3:
+        threaded_cache(ctx)
+        return
     sched = Scheduler(ch, ctx.log)
     det = T.CollidingRandom(ch.subrng("rnd"))
     rec = T.Recorder()
